@@ -37,8 +37,26 @@
 (*  5. A top-level state machine: one transition per top-level form event  *)
 (*     (macro use transcribed, begin spliced, define-syntax installed,     *)
 (*     form expanded), then Lang's machine, then the case line.            *)
-(*  6. The generator: library of macro definitions x use-site contexts     *)
-(*     (section "Families") and a pattern grammar x input grammar.         *)
+(*  6. The generator (section "Families"), all products enumerated by TLC   *)
+(*     from Init:                                                          *)
+(*     hyg   library entry (macro definitions + one use with a hole)       *)
+(*           x spelling N the use site binds (EVERY identifier spelled in  *)
+(*             the definitions: introduced binders, free builtins /        *)
+(*             globals / derived keywords / other macros, pattern          *)
+(*             variables, literals, the macro's own name)                  *)
+(*           x value bound (number | procedure) x binding context (let,    *)
+(*             lambda, internal define, let*, letrec, named let, parameter *)
+(*             of an internal / top-level function, none)                  *)
+(*           x argument (the identifier N itself | a constant)             *)
+(*           x placement (later unit | same unit | in a function body)     *)
+(*     nest  a use of entry e2 as the argument of a use of entry e1        *)
+(*     match pattern grammar (<= PATLEN elements of ELEMKINDS, one may be  *)
+(*           followed by `...`, optional dotted tail) x input grammar      *)
+(*           (<= INLEN elements of INKINDS, optional improper tail) x the  *)
+(*           literal shadowed at the use or not; the template quotes every *)
+(*           pattern variable with its ellipsis structure                  *)
+(*     pair  two rules from a list of overlapping patterns, both orders    *)
+(*           (first matching rule wins)                                    *)
 (*                                                                         *)
 (* Domain restrictions / named deviations of Steel adopted on purpose      *)
 (*   H1  `if let lambda define quote begin set!` are reserved words of     *)
@@ -73,7 +91,9 @@ CONSTANTS CTXS,      \* use-site context kinds explored (subset of AllCtxs)
           NEST,      \* TRUE: also the nesting family (a use as argument of another use)
           PATLEN,    \* max number of element patterns in the pattern grammar
           INLEN,     \* max number of input elements in the input grammar
-          PAIRS      \* TRUE: also the two-rule (first match wins) family
+          PAIRS,     \* TRUE: also the two-rule (first match wins) family
+          ELEMKINDS, \* element pattern kinds of the pattern grammar (subset of AllElemKinds)
+          INKINDS    \* input element kinds of the input grammar (subset of AllInKinds)
 
 VARIABLES hc,        \* parameters of the case of this behaviour (small record)
           hui,       \* index of the source unit being expanded
@@ -433,7 +453,7 @@ XE(f, bd, ms, c) ==
 GlobalNames == {"my-or", "swap!", "my-let1", "m-lam", "m-idef", "rep", "m-lets", "m-rec", "my-for",
                 "use-g", "use-g2", "helper", "gv", "use-kw", "m-outer", "m-inner", "sum-acc", "defk", "defm",
                 "gen", "my-cond", "def-it", "def-tmp", "fn0", "fn1", "mm", "my-let*", "m-do", "m-o2", "m-i2",
-                "m-two", "k-else", "wrap"}
+                "m-two", "k-else", "wrap", "def-fn", "m-pv", "m-pk", "m-bb", "m-op", "m-set"}
 RId(n) == IF n \in GlobalNames THEN n \o "@@" ELSE n
 RECURSIVE Rs(_)
 RsSeq(es) == Join([i \in 1..Len(es) |-> Rs(es[i])], " ")
@@ -645,6 +665,31 @@ CoreEntries ==
           <<Rule(Pat(<<L(<<y("v"), y("e")>>), DOTS, y("body")>>),
                  Sl(<<Sl(<<y("lambda"), L(<<y("v"), DOTS>>), y("body")>>), y("e"), DOTS>>))>>)>>,
        Call("wrap", <<L(<<y("p"), num(1)>>), L(<<y("tmp"), HOLE>>), Call("list", <<y("p"), y("tmp")>>)>>), FALSE),
+     Entry("toplevel-define-user-name",
+       <<DefSyn("def-it", << >>, <<Rule(Pat(<<y("n"), y("v")>>), Call("define", <<y("n"), y("v")>>))>>),
+         Call("def-it", <<y("gv"), num(41)>>)>>,
+       Call("list", <<y("gv"), HOLE>>), FALSE),
+     Entry("toplevel-define-function",
+       <<DefSyn("def-fn", << >>,
+          <<Rule(Pat(<<y("name")>>), Sl(<<y("define"), L(<<y("name"), y("x")>>), Call("list", <<y("x"), q(y("ok"))>>)>>))>>),
+         Call("def-fn", <<y("helper")>>)>>,
+       Call("helper", <<HOLE>>), FALSE),
+     Entry("patvar-named-like-builtin",
+       <<DefSyn("m-pv", << >>, <<Rule(Pat(<<y("list"), y("x")>>), Call("cons", <<y("x"), y("list")>>))>>)>>,
+       Call("m-pv", <<q(L(<<num(1)>>)), HOLE>>), FALSE),
+     Entry("patvar-named-like-keyword",
+       <<DefSyn("m-pk", << >>, <<Rule(Pat(<<y("when")>>), Call("list", <<y("when")>>))>>)>>,
+       Call("m-pk", <<HOLE>>), FALSE),
+     Entry("binder-named-like-builtin",
+       <<DefSyn("m-bb", << >>, <<Rule(Pat(<<y("x")>>), Let1(y("car"), y("x"), Call("list", <<y("car")>>)))>>)>>,
+       Call("m-bb", <<HOLE>>), FALSE),
+     Entry("operator-position",
+       <<DefSyn("m-op", << >>, <<Rule(Pat(<< >>), Sl(<<y("lambda"), L(<<y("y")>>), Call("list", <<y("y")>>)>>))>>)>>,
+       L(<<Call("m-op", << >>), HOLE>>), FALSE),
+     Entry("set-global",
+       <<Call("define", <<y("gv"), num(1)>>),
+         DefSyn("m-set", << >>, <<Rule(Pat(<<A>>), Sl(<<y("begin"), Call("set!", <<y("gv"), A>>), y("gv")>>))>>)>>,
+       Call("m-set", <<HOLE>>), FALSE),
      Entry("recursive-letstar",
        <<DefSyn("my-let*", << >>,
           << Rule(Pat(<<Nil0, y("body")>>), y("body")),
@@ -659,7 +704,9 @@ Lib == CoreEntries \o BuiltinEntries \o KwEntries
 NestIdx == {i \in 1..Len(CoreEntries) : ~CoreEntries[i].argvar
                                         /\ CoreEntries[i].tag \notin {"for-loop-user-acc", "literals-else",
                                                                        "macro-defining-const",
-                                                                       "dotted-params-through-patvar"}}
+                                                                       "dotted-params-through-patvar",
+                                                                       "toplevel-define-user-name",
+                                                                       "toplevel-define-function", "set-global"}}
 
 RECURSIVE IdNames(_), IdNamesSeq(_)
 IdNames(f) == IF IsId(f) THEN {f.n}
@@ -752,8 +799,6 @@ HygTag(p) ==
 (*     derived from the pattern and quotes every pattern variable with its   *)
 (*     ellipsis structure, so the emitted datum IS the binding the matcher   *)
 (*     computed; a use no rule matches must be a syntax error.               *)
-CONSTANTS ELEMKINDS,   \* element pattern kinds used (subset of AllElemKinds)
-          INKINDS      \* input element kinds used (subset of AllInKinds)
 AllElemKinds == {"v", "u", "k", "c", "l2", "le", "lbe", "ld", "lde"}
 AllInKinds == {"1", "x", "k", "7", "l0", "l1", "l2", "l3", "ll", "d", "d3", "lk"}
 SeqsUpTo(S, n) == UNION {[1..m -> S] : m \in 0..n}
